@@ -54,6 +54,7 @@ REGISTRY = {
         "technique": "property-based testing (rapid): concurrent histories in testing/synctest against a routing model + per-call ledger",
         "tests": [
             {"name": "TestC06Replies", "shards": 8, "shards_thorough": 16},
+            {"name": "TestC06Coincidences", "shards": 8, "shards_thorough": 16, "crash_is_violation": True},
         ],
         "require": {"c06:drop:early": 113, "c06:drop:mid": 116, "c06:drop:none": 570, "c06:outcome:closed": 81, "c06:outcome:ctx": 163, "c06:outcome:reject": 245, "c06:outcome:reply": 746, "c06:outcome:t3": 135, "c06:policy:abort": 167, "c06:policy:collide-control": 330, "c06:policy:collide-primary": 173, "c06:policy:dup": 256, "c06:policy:dup-late": 198, "c06:policy:late": 190, "c06:policy:none": 205, "c06:policy:reject": 202, "c06:policy:reply": 577, "c06:policy:unsolicited": 157, "c06:slow-write": 150},
     },
